@@ -128,6 +128,27 @@ EXTREME = [".org 0xffffffff\n.db 1\n", ".org 0xffff0000\n.db 1, 2\n", ".org 0x7f
            ".macro\n.endm\n", ".define\n", ".define X(\n", ".macro m(a,\n.endm\n", "m(\n", "#\n", ".\n", "..\n", "\"\n", "'\n", "/*\n", "*/\n", "\\\n"]
 
 
+SPARSE = [".msp430\n.db 1\n.org 0xffffffff\n.db 1\n", ".mips\n.org 0x1000\n  nop\n.org 0xbfc00000\n  nop\n.org 0xfffffffc\n.dc32 0x1000\n",
+          ".65816\n.org 0x10\n.db 1, 2\n.org 0xfffff0\n.db 3\n"]
+
+PASS_STMT = {
+    "set": ".set px = 5\n", "set_existing": ".set first = 7\n", "label": "plabel:\n.db 1\n", "db": ".db 1, 2, 3\n", "insn": "  mov.w #1000, r5\n",
+    "macro": ".macro pm(a)\n.db a\n.endm\npm(3)\n", "define": ".define PD 4\n.db PD\n", "equ": "pe equ 9\n.db pe\n", "org": ".org 0x200\n.db 1\n",
+    "scope": ".scope\nploc:\n  jmp ploc\n.ends\n", "func": ".func pf\n  ret\n.endf\n", "export": ".export first\n",
+    "include": '.include "p.inc"\n', "binfile": '.binfile "p.inc"\n', "repeat": ".repeat 3\n.db 1\n.endr\n", "align": ".align 32\n",
+    "entry_point": ".entry_point first\n", "call_undefined": "  call #nowhere_defined\n", "undef": ".undef FIRSTDEF\n"}
+
+
+def render_pass(guard, later, stmt):
+    """a statement only one pass sees: the guard depends on a name defined after it"""
+    body = PASS_STMT[stmt]
+    g = {"p2_ifdef": ".ifdef later\n%s.endif\n", "p2_if_defined": ".if defined(later)\n%s.endif\n", "p2_else": ".ifndef later\n.db 9\n.else\n%s.endif\n",
+         "p1_ifndef": ".ifndef later\n%s.endif\n", "p1_else": ".ifdef later\n.db 9\n.else\n%s.endif\n"}[guard] % body
+    d = {"label": "later:\n", "set": ".set later = 3\n", "equ": "later equ 3\n"}[later]
+    src = ".msp430\n.define FIRSTDEF 1\nfirst:\n  nop\n" + g + "  mov.w #first, r6\n" + d + "  nop\n"
+    return src, {"p.inc": ".db 7, 7\n"}, []
+
+
 def mutate(text, rnd):
     toks = re.findall(r"\s+|[A-Za-z_0-9.$#]+|.", text, re.S)
     if len(toks) < 4:
@@ -220,20 +241,29 @@ def run(tier, seed):
     # same input), with another output type (the writers walk the image), with -optimize
     OPTS = [[], ["-l"], ["-type", "elf"], ["-l", "-type", "srec"], ["-optimize"], ["-dump_symbols", "-dump_macros"]]
 
-    def add(kind, key, src, files=None, args=None, to=20):
+    def add(kind, key, src, files=None, args=None, to=20, rotate=True):
         cid = "j%d" % len(jobs)
         meta[cid] = (kind, key, src if isinstance(src, str) else repr(src[:200]))
-        jobs.append((exe, wd, cid, src, files or {}, (args or []) + OPTS[len(jobs) % len(OPTS)], to))
+        jobs.append((exe, wd, cid, src, files or {}, (args or []) + (OPTS[len(jobs) % len(OPTS)] if rotate else []), to))
     for c in lim:
         if c["len"] > 70000 and c["res"] not in ("repeat_count", "resb", "data_fill"):
             continue
         if c["res"] in ("nest_include",) and c["len"] > 600:
+            continue
+        if c["res"] == "pass_only":
+            src, files, args = render_pass(c["guard"], c["later"], c["stmt"])
+            add("limit", "pass_only:%s:%s:%s" % (c["guard"], c["later"], c["stmt"]), src, files, args, 30)
             continue
         src, files, args = render(c["res"], c["len"])
         rel = "lt" if c["len"] < c["cap"] else ("eq" if c["len"] == c["cap"] else "gt")
         add("limit", "%s:%s" % (c["res"], rel), src, files, args, 30)
     for i, e in enumerate(EXTREME):
         add("extreme", "extreme:%d:%s" % (i, e.split("\n")[0][:30]), ".msp430\n" + e)
+    # time proportional to the input, not to the address range: a few bytes at both ends of the address space in the
+    # record formats (bin, elf, uf2 hold the whole range by definition and are not asked for here)
+    for i, e in enumerate(SPARSE):
+        for o in ([], ["-l"], ["-type", "srec"], ["-type", "wdc"], ["-l", "-type", "srec"]):
+            add("extreme", "sparse:%d:%s" % (i, " ".join(o)), e, args=o, rotate=False)
     # the C12 corruption space on the sanitizer build
     for base in (1, 2, 3):
         for kind in sorted(c12.BAD):
